@@ -118,10 +118,14 @@ def required():
 
 
 def _call(f, prm, x, n, use_out):
+    """use_out: 0 no out=, 1 fresh out buffer, 2 out aliases the input array"""
     xa = np.array([x, x])
-    if use_out:
+    if use_out == 1:
         out = np.empty_like(xa)
         r = f(*(list(prm) + [xa]), out=out, n=n)
+        return np.asarray(r)
+    if use_out == 2:
+        r = f(*(list(prm) + [xa]), out=xa, n=n)
         return np.asarray(r)
     return np.asarray(f(*(list(prm) + [xa]), n=n))
 
@@ -148,9 +152,11 @@ def run_case(ctx, case):
     except (ValueError, ZeroDivisionError, mp.libmp.NoConvergence) as e:
         ctx.skip('reference-unavailable:%s:%s' % (name, p['cls']))       # mpmath could not evaluate the reference here
         return
-    for n in range(0, p['nmax'] + 1):
+    # orders are requested in a shuffled sequence (jumps, descents): closed forms must not depend on what was asked before
+    order = list(np.random.default_rng(case['seed'] + int(abs(x) * 1000) % 97).permutation(p['nmax'] + 1))
+    for n in [int(v) for v in order]:
         try:
-            got = _call(f, prm, x, n, use_out=(n % 2 == 1))
+            got = _call(f, prm, x, n, use_out=(n + int(abs(x) * 10)) % 3)
         except Exception as e:
             ctx.violation('%s:raises:%s' % (name, p['cls']), {'fn': name, 'prm': prm, 'x': x, 'n': n, 'error': repr(e)[:200]})
             return
